@@ -17,6 +17,7 @@ LEVEL_TEXT = (
     "names are never returned by name lookup in any evaluation context; eval()/exec() run through the same interpreter"
     "; a from-import always looks the module up (stubs look-alikes are not skipped); pyscript modules are searched at <root>/<dotted name as path>/__init__.py and .py; excluded builtins stay unreachable through a `global` declaration; setting the integration up again rebinds the configuration entry the evaluators read"
     '; module lookups made inside functions use the defining context; print/log.* stay defined in trigger expressions; __builtins__ is not readable as a name'
+    '; eval()/exec() with explicit namespaces keep print/log.*; relative imports never fall back to installed modules'
 )
 LEVEL_NOTE = "the allow-list membership test is evaluated concretely on representative names (listed: math, json; not listed: os, subprocess); native code compiled by @pyscript_compile/lambda is a recorded known finding"
 TECHNIQUE = "schematic abstract interpretation of ast_import/ast_importfrom/ast_name producing a decision table over guard atoms; who-may-call for importlib/sys.modules/exec"
